@@ -140,12 +140,33 @@ theorem applied_no_skip {κ : Type} (P : Params) (hP : P.WF) (L : List Entry) (f
 
 /-- the primary's selection for a log without shared numbers is a run of the log (so `poll` is a contiguous
     message) and consists of genuine entries numbered ≥ `from` in any log. -/
-theorem select_spec (L : List Entry) (from_ limit : Nat) :
-    (∀ e ∈ select L from_ limit, e ∈ L ∧ e.seq ≥ from_) ∧ (select L from_ limit).length ≤ limit ∧
-    (∀ first, NoSharedSeq first L → select L from_ limit <:+: L) := by
-  refine ⟨fun e he => ?_, by simp [select, List.length_take]; omega, fun first h => select_infix h _ _⟩
-  have := List.mem_filter.mp (List.mem_of_mem_take he)
+theorem select_spec (L : List Entry) (from_ limit cap : Nat) :
+    (∀ e ∈ select L from_ limit cap, e ∈ L ∧ e.seq ≥ from_) ∧ (select L from_ limit cap).length ≤ limit ∧
+    (∀ first, NoSharedSeq first L → select L from_ limit cap <:+: L) := by
+  refine ⟨fun e he => ?_, by simp [select, List.length_take]; omega, fun first h => select_infix h _ _ _⟩
+  have := List.mem_filter.mp (List.mem_of_mem_take (List.mem_of_mem_take he))
   exact ⟨this.1, by simpa using this.2⟩
+
+/-- the response byte cap (repair 7e3a1f2) never empties a selection: whenever the log holds an entry numbered `from` or
+    later and the entry limit is positive, the response carries at least one entry — the stream always advances — and
+    the selection is a PREFIX of the uncapped one (the cap only shortens a response, it never reorders or skips) -/
+theorem select_cap_progress (L : List Entry) (from_ limit cap : Nat) (hl : 0 < limit)
+    (h : ∃ e ∈ L, e.seq ≥ from_) :
+    select L from_ limit cap ≠ [] ∧ select L from_ limit cap <+: (L.filter (fun e => e.seq ≥ from_)).take limit := by
+  refine ⟨?_, List.take_prefix _ _⟩
+  obtain ⟨e, he, hge⟩ := h
+  have hmem : e ∈ L.filter (fun e => decide (e.seq ≥ from_)) := List.mem_filter.mpr ⟨he, by simpa using hge⟩
+  unfold select
+  simp only []
+  cases hf : L.filter (fun e => decide (e.seq ≥ from_)) with
+  | nil => rw [hf] at hmem; cases hmem
+  | cons x xs =>
+    obtain ⟨n, rfl⟩ : ∃ n, limit = n + 1 := ⟨limit - 1, by omega⟩
+    rw [List.take_succ_cons]
+    have := Kevo.Proofs.Applier.capCount_pos cap x (xs.take n)
+    obtain ⟨m, hm⟩ : ∃ m, capCount cap 0 0 (x :: xs.take n) = m + 1 := ⟨_, (Nat.succ_pred_eq_of_pos this).symm⟩
+    rw [hm, List.take_succ_cons]
+    exact List.cons_ne_nil _ _
 
 /-- WHEN does the hypothesis `NoSharedSeq` hold? Exactly for primaries that never commit a multi-entry batch: the
     abstract log of C08/C09 (`Kevo.Spec.ALog`, to which the WAL model is proved to refine in C09) of a history
@@ -211,7 +232,7 @@ set_option maxRecDepth 100000 in
     acknowledges 100; the next selection starts at 101, so the second entry of the transaction is never sent:
     it is skipped, while the replica reports 101. -/
 theorem shared_seq_cut_witness :
-    (select cutLog 1 P0.pollLimit).length = 100 ∧ (select cutLog 1 P0.pollLimit).getLast? = some (put 100 116 1) ∧
+    (select cutLog 1 P0.pollLimit P0.pollBytes).length = 100 ∧ (select cutLog 1 P0.pollLimit P0.pollBytes).getLast? = some (put 100 116 1) ∧
     (let r := runFrom P0 cbOk cutLog 0 () [.poll, .ack, .poll]
      r.applied = cutLog.take 100 ++ [put 101 122 3] ∧ put 100 116 2 ∉ r.applied ∧
      r.acks = [100] ∧ r.lastApplied = 101 ∧ r.app.expectedNext = 102 ∧ ¬ (r.applied <+: rest 0 cutLog)) := by
